@@ -677,7 +677,17 @@ static void rw_body(caller_t *c)
         else
             CHK(ABT_rwlock_rdlock(g_rw));
         EV("\"e\":\"RWRet\",\"t\":%d,\"op\":\"%s\"", c->id, wr ? "wr" : "rd");
-        if (!wr && c->x[2] && g_rendezvous) {
+        if (!wr && c->x[3]) {
+            /* many more read holds by the same caller (no writer may get in until the last one is
+             * given back), kept for a while */
+            for (int k = 0; k < c->x[3]; k++)
+                CHK(ABT_rwlock_rdlock(g_rw));
+            EV("\"e\":\"RWNest\",\"t\":%d,\"n\":%d", c->id, c->x[3]);
+            for (int k = 0; k < 12; k++)
+                drv_pause(c);
+            for (int k = 0; k < c->x[3]; k++)
+                CHK(ABT_rwlock_unlock(g_rw));
+        } else if (!wr && c->x[2] && g_rendezvous) {
             /* two readers meet inside the read-side critical section: a
              * reader must not be blocked while only readers hold the lock */
             __sync_add_and_fetch(&g_readers_in, 1);
@@ -691,6 +701,18 @@ static void rw_body(caller_t *c)
         CHK(ABT_rwlock_unlock(g_rw));
         EV("\"e\":\"RWRet\",\"t\":%d,\"op\":\"un\"", c->id);
     }
+}
+/* a tasklet is not allowed to take the lock (1.x API): the call is rejected and has no effect */
+static void rw_tasklet(void *a)
+{
+    int r = a ? ABT_rwlock_wrlock(g_rw) : ABT_rwlock_rdlock(g_rw);
+    EV("\"e\":\"RWReject\",\"ret\":%d", r == ABT_ERR_RWLOCK ? 1 : r == ABT_SUCCESS ? 0 : 2);
+}
+static void rw_intruder(void)
+{
+    ABT_thread t;
+    CHK(ABT_task_create(g_pools[rnd(g_nes)], rw_tasklet, rnd(2) ? (void *)&g_rw : NULL, &t));
+    CHK(ABT_thread_free(&t));
 }
 static void scn_rwlock(void)
 {
@@ -707,11 +729,13 @@ static void scn_rwlock(void)
         c->x[0] = 1 + rnd(3);
         c->x[1] = rnd(8);
         c->x[2] = 0;
+        c->x[3] = rnd(6) ? 0 : (rnd(2) ? 255 + rnd(3) : 500 + rnd(30));
         if (rv_left) {
             /* a dedicated reader of the rendezvous: exactly one read round */
             c->x[0] = 1;
             c->x[1] = 0;
             c->x[2] = 1;
+            c->x[3] = 0;
             rv_left--;
             /* both must be able to run at the same time */
             if (c->kind == K_ULT)
@@ -721,7 +745,11 @@ static void scn_rwlock(void)
     if (g_rendezvous && g_nes < 3) {
         /* two ULT readers on one stream can still meet: they yield while waiting */
     }
+    if (rnd(3) == 0)
+        rw_intruder();
     callers_launch(32768);
+    if (rnd(3) == 0)
+        rw_intruder();
     callers_join();
     CHK(ABT_rwlock_free(&g_rw));
 }
